@@ -10,6 +10,7 @@ from typing import Tuple, Union
 import opt_einsum
 
 import funsor
+import funsor.interpreter as interpreter
 import funsor.ops as ops
 from funsor.affine import affine_inputs
 from funsor.delta import Delta
@@ -408,6 +409,31 @@ def _(fn):
     return affine_inputs(flat)
 
 
+def _rename_clashing_bound_vars(v, other_terms, reduced_vars):
+    """
+    Helper for fusing a nested :class:`Contraction` ``v`` into a parent:
+    returns ``v.reduced_vars, v.terms`` with those bound variables of ``v``
+    renamed that clash with the parent's ``reduced_vars`` or with free inputs
+    of the parent's ``other_terms`` (as happens when one reduced term is used
+    twice, since both uses share their alpha-renamed bound names).
+    """
+    taken = frozenset(var.name for var in reduced_vars).union(
+        *(t.inputs for t in other_terms)
+    )
+    clashes = [var for var in v.reduced_vars if var.name in taken]
+    if not clashes:
+        return v.reduced_vars, v.terms
+    renames = {
+        var.name: Variable(interpreter.gensym(var.name), var.output)
+        for var in clashes
+    }
+    v_reduced_vars = frozenset(renames.get(var.name, var) for var in v.reduced_vars)
+    v_terms = tuple(
+        t(**{k: x for k, x in renames.items() if k in t.inputs}) for t in v.terms
+    )
+    return v_reduced_vars, v_terms
+
+
 ##########################################
 # Normalizing Contractions
 ##########################################
@@ -509,9 +535,12 @@ def normalize_contraction_generic_tuple(red_op, bin_op, reduced_vars, terms):
         ):
             red_op = v.red_op if red_op is ops.null else red_op
             bin_op = v.bin_op if bin_op is ops.null else bin_op
-            new_terms = terms[:i] + v.terms + terms[i + 1 :]
+            v_reduced_vars, v_terms = _rename_clashing_bound_vars(
+                v, terms[:i] + terms[i + 1 :], reduced_vars
+            )
+            new_terms = terms[:i] + v_terms + terms[i + 1 :]
             return Contraction(
-                red_op, bin_op, reduced_vars | v.reduced_vars, *new_terms
+                red_op, bin_op, reduced_vars | v_reduced_vars, *new_terms
             )
 
     # nothing more to do, reflect
